@@ -31,7 +31,7 @@ m = {
               "baseline_off_cmd": "cmake --install /repo/_build --prefix /repo/_prefix >/dev/null && cmake --build /repo/_build_tests -j8 >/dev/null && ctest --test-dir /repo/_build_tests -j8 --timeout 900",
               "source_commits": [], "add_only": True},
     "engines": [{"name": "cbmc-dfcc", "path": "bin/check", "serves_properties": [c['property_id'] for c in checks],
-                 "kind_free_text": "extract/cxx2c.py (clang JSON AST -> C, closed vocabulary, abort on unknown) + spec/ contracts + goto-cc / goto-instrument --dfcc / cbmc per function, 16 jobs"}],
+                 "kind_free_text": "extract/ (clang 14 JSON AST of the instantiations in extract/inst -> C on every run, closed vocabulary listed in extract/rules.md, abort with exit 2 on anything else) + spec/ contracts (CBMC code contracts: requires / ensures / assigns / loop invariants / decreases) + goto-cc, goto-instrument --dfcc --enforce-contract f --replace-call-with-contract g --apply-loop-contracts, cbmc per function; minisat and cadical raced (quick) or both required to agree (thorough, plus native replays under ASan/UBSan as regression)"}],
     "checks": checks,
     "not_applicable": na,
     "notes": "exit 0 = all obligations discharged; exit 1 = VIOLATION line(s); exit 2 = infrastructure error / undecided (never a violation). Fixed defects are listed in known_findings.json (fixed: entries suppress nothing).",
